@@ -1538,9 +1538,10 @@ Definition w_reset : MW unit :=
 Definition tbl_shrink_target (t : table) (min_cap : nat) : nat := Nat.max (cap_pow2 (t_len t)) min_cap.
 Definition tbl_can_shrink (t : table) (min_cap : nat) : bool := Nat.ltb (tbl_shrink_target t min_cap) (t_cap t).
 
-(** storage.Shrink. [stop0] = a zero time budget (stop after the first table that had work);
-    otherwise the budget is taken to be unlimited (the default of one hour). *)
-Definition w_shrink_core (stop0 : bool) : MW bool :=
+(** storage.Shrink under an arbitrary clock. [clock idx] answers "has the time budget expired when table
+    [idx] has just been processed" (Go: [stopAfter == 0 || time.Since(start) >= stopAfter], evaluated after
+    each table once some table had work). Nothing is assumed about the clock (not even monotonicity). *)
+Definition w_shrink_clock (clock : nat -> bool) : MW bool :=
   s <- get ;;
   let n := length (w_tables s) in
   r <- (fix go (fuel : nat) (idx : nat) (any : bool) : MW (nat * bool) :=
@@ -1564,7 +1565,7 @@ Definition w_shrink_core (stop0 : bool) : MW bool :=
                            cache_remove_table idx ;;;
                            ret true
                          else ret a1) ;;
-              if (any1 && stop0)%bool then ret (idx, any1)
+              if (any1 && clock idx)%bool then ret (idx, any1)
               else match f with O => ret (idx, any1) | _ => go f (S idx) any1 end
           end) n 0 false ;;
   let '(last, _) := r in
@@ -1574,10 +1575,17 @@ Definition w_shrink_core (stop0 : bool) : MW bool :=
          else (tbl_can_shrink t (cf_caprel (w_cfg s)) || (negb (t_free t) && Nat.eqb (t_len t) 0))%bool)
        (skipn (S last) (w_tables s))).
 
+(** The two extreme budgets as constant clocks: [stop0] = a zero time budget (stop after the first table
+    that had work); otherwise the budget is taken to be unlimited (the default of one hour). *)
+Definition w_shrink_core (stop0 : bool) : MW bool := w_shrink_clock (fun _ => stop0).
+
 (** World.Shrink: like every structure-changing operation it is rejected on a locked world (repair
     [fix: Shrink panics on a locked world]; it used to run while queries were open, freeing tables out
     of the table list an open query was walking). *)
 Definition w_shrink (stop0 : bool) : MW bool := check_locked ;;; w_shrink_core stop0.
+(** World.Shrink with an arbitrary time budget, read off an arbitrary clock ([w_shrink stop0] is the
+    instance at the constant clock [fun _ => stop0]). *)
+Definition w_shrink_timed (clock : nat -> bool) : MW bool := check_locked ;;; w_shrink_clock clock.
 
 (** ** Queries: filter_gen.go Query(), query_gen.go cursor, query_count.go *)
 
